@@ -291,6 +291,18 @@ def rule_removal(ck):
             ck.ob("mpt.removal", f"{key}/known-mutation-kind", False, f"unclassified mutation `{kind}` of the active-breakpoint map", f.loc(c.bb))
 
 
+def rule_remove_all(ck):
+    """`break remove <fn | file:line>`: every candidate address is tried"""
+    prog = ck.prog
+    ck.rule("loop.remove_candidates", "Debugger::remove_breakpoints_at_addresses (the tail of removal by function and by file:line) tries every candidate address: a loop whose body returns only on error, or an iterator chain without short-circuiting adapters — a candidate without a breakpoint must not end the pass")
+    f = ck.anchor("debugger::breakpoint::<impl debugger::Debugger>::remove_breakpoints_at_addresses")
+    kind, problems = pass_over_iterator(f, lambda e: e == ("arg", 2))
+    ck.ob("loop.remove_candidates", "remove_breakpoints_at_addresses/consumes-the-candidates", kind is not None, f"shape: {kind}", f.loc())
+    ck.ob("loop.remove_candidates", "remove_breakpoints_at_addresses/every-candidate-is-tried", kind is not None and not problems, "; ".join(problems), f.loc(), what="removal by name stops at the first candidate address without a breakpoint: later locations of the same template stay armed")
+    rm = [c for x in prog.with_closures(f.path) for c in x.calls() if c.name.endswith("BreakpointRegistry::remove_by_addr")]
+    ck.ob("loop.remove_candidates", "remove_breakpoints_at_addresses/removes-through-the-registry", len(rm) == 1, f"{len(rm)} remove_by_addr calls", f.loc())
+
+
 def _key_selected_as_unmapped(prog, f, c):
     """the key of this HashMap::remove comes out of collect(..filter(iter(self.breakpoints), P)..) where P's only
     non-false result is Result::is_err(RelocatedAddress::into_global(<item>.addr, ..))"""
@@ -394,4 +406,5 @@ def run(ck):
     rule_rewind(ck)
     rule_stepoff(ck)
     rule_removal(ck)
+    rule_remove_all(ck)
     rule_continue(ck)
